@@ -35,6 +35,8 @@ class BuckGophermapHandler(BaseHandler):
                 self.entry.type = "1"
                 self.entry.mimetype = "application/gopher-menu"
                 self.entry.populatefromvfs(self.vfs, self.getselector())
+                # The length of the map file is not the length of that menu.
+                self.entry.size = None
             else:
                 self.entry.populatefromfs(
                     self.getselector(), self.statresult, vfs=self.vfs
